@@ -300,9 +300,9 @@ def ref_request(d: Def):
         else:
             src = bytes_regex_src(p.lit) if isinstance(p.lit, bytes) else p.lit
             if '(?&' in src:
-                if subs is None:
-                    subs = resolve_subpatterns(d)
                 try:
+                    if subs is None:
+                        subs = resolve_subpatterns(d)
                     src = inline_subpatterns(src, subs)
                 except KeyError as e:
                     pats.append({'kind': 'regex', 'src': '(?&' + str(e.args[0]) + ')', 'unicode': unicode,
